@@ -49,6 +49,9 @@ def distance_to_similarity(D, r=None, a=None, method='exponential', return_param
                 r = np.max(D)
             else:
                 r = -np.quantile(D, cover_quantile) / np.log(cover_quantile_target)
+            if r == 0:
+                # Only zero distances to scale, any positive scale maps them to similarity 1
+                r = 1
         S = np.exp(-D / r)
     elif method == 'gaussian':
         if r is None:
@@ -56,6 +59,8 @@ def distance_to_similarity(D, r=None, a=None, method='exponential', return_param
                 r = np.max(D)
             else:
                 r = np.sqrt(-np.quantile(D, cover_quantile) ** 2 / np.log(cover_quantile_target))
+            if r == 0:
+                r = 1
         S = np.exp(-np.power(D, 2) / r**2)
     elif method == 'reciprocal':
         if r is None:
@@ -69,6 +74,8 @@ def distance_to_similarity(D, r=None, a=None, method='exponential', return_param
     elif method == 'reverse':
         if r is None:
             r = np.min(D) + np.max(D)
+            if r == 0:
+                r = 1
         S = (r - D) / r
     else:
         raise ValueError("method={} is not supported".format(method))
@@ -130,6 +137,8 @@ def squash(X, r=None, base=None, x0=None, method="logistic", return_params=False
                 r = 1
             else:
                 r = np.sqrt(-(np.quantile(X, cover_quantile)-x0)**2/np.log(1-cover_quantile_target))
+            if r == 0:
+                r = 1
         if base is None:
             result = 1 - np.exp(-np.power(X - x0, 2) / r**2)
             Xz = 1 - np.exp(-np.power(0 - x0, 2) / r**2)
@@ -143,6 +152,8 @@ def squash(X, r=None, base=None, x0=None, method="logistic", return_params=False
                 r = 1
             else:
                 r = -(np.quantile(X, cover_quantile)-x0)/np.log(1-cover_quantile_target)
+            if r == 0:
+                r = 1
         if base is None:
             result = 1 - np.exp(-(X - x0) / r)
             Xz = 1 - np.exp(x0 / r)
@@ -157,6 +168,8 @@ def squash(X, r=None, base=None, x0=None, method="logistic", return_params=False
                 r = x0 / 6
             else:
                 r = -(np.quantile(X, cover_quantile)-x0) / np.log(1/cover_quantile_target-1)
+            if r == 0:
+                r = 1
         if base is None:
             result = 1 / (1 + np.exp(-(X - x0) / r))
             Xz = 1 / (1 + np.exp(-(0 - x0) / r))
